@@ -232,6 +232,9 @@ structure Scenario where
   ignored : List Path := []
   /-- the recorded effect trace of the follow-up `meson setup --reconfigure` on the directory the command leaves -/
   recovery : List (Effect Gen) := []
+  /-- for a file written in place that the follow-up run leaves alone when it finds it whole: the recorded effect trace
+      of the follow-up run on the directory left by a kill right after that file was opened (it is empty there) -/
+  tornRecovery : List (Path × List (Effect Gen)) := []
 
 def Scenario.fs0 (sc : Scenario) : FS Gen := FS.ofList sc.init
 
